@@ -174,6 +174,23 @@ func (g *VerifC18Rig) VerifC18Heartbeat(instance string, tMs int64) error {
 	return nil
 }
 
+// VerifC18RedateFresh: after a heartbeat that came in through the HTTP endpoint. Every entry of the table that carries
+// the wall clock of the window [before, after] (all other entries live on the rig's own time axis) was written by that
+// heartbeat, under whatever key the endpoint chose: it is re-dated to the scripted time tMs. What the key is, is for the
+// judge to see.
+func (g *VerifC18Rig) VerifC18RedateFresh(before, after time.Time, tMs int64) []string {
+	var keys []string
+	clients, _ := g.r.clientCache.AllClients()
+	for c, t := range clients {
+		if !t.Before(before.Add(-time.Millisecond)) && !t.After(after.Add(time.Millisecond)) {
+			keys = append(keys, c)
+			g.r.clientCache.clientHeartbeats.Store(c, g.base.Add(time.Duration(tMs)*time.Millisecond))
+		}
+	}
+	sort.Strings(keys)
+	return keys
+}
+
 // VerifC18Heartbeats reads the real heartbeat table (AllClients) back on the rig's time axis.
 func (g *VerifC18Rig) VerifC18Heartbeats() map[string]int64 {
 	res := map[string]int64{}
